@@ -152,10 +152,14 @@ theorem checkUpdate_reach_ok (i : Input) (f : Fam) (nh : Nh) (attrs : List Attr)
     obtain ⟨sl, _, rfl⟩ := List.mem_map.mp hc
     simp
   simp only [List.any_nil, Bool.false_eq_true, if_false, hfam, hents, compareEntries_ok v6 ap es hes hp, hnh]
-  apply firstSome_none
-  intro x hx
-  obtain ⟨sl, _, rfl⟩ := List.mem_map.mp hx
-  exact attrsVerdict_qReach legacy f nh fin _ _ hfin
+  have hfs : firstSome (L.map (fun sl => qReach legacy f nh fin (sl.map (decE v6 ap))))
+      (attrsVerdict (sortAttrs (attrs.map canonAttr))) = none := by
+    apply firstSome_none
+    intro x hx
+    obtain ⟨sl, _, rfl⟩ := List.mem_map.mp hx
+    exact attrsVerdict_qReach legacy f nh fin _ _ hfin
+  rw [hfs]
+  rfl
 
 theorem checkUpdate_unreach_ok (i : Input) (f : Fam) (es : List Entry)
     (legacy v6 ap : Bool) (L : List (List Entry))
